@@ -79,6 +79,7 @@ class Profile:
     p_combo_ops: float = 0.15
     p_consecutive_ops: float = 0.35
     p_null_run: float = 0.04
+    p_bbox: float = 0.06                 # per measure: a row of bounding boxes (*xywh-page:x,y,w,h), as in OMR ground truth
     max_sigs: int = 5                    # signifiers per note (up to all 35 in the long-token profile)
     chord_sizes: tuple = (2, 2, 3, 3, 4)
     long_text: float = 0.0               # probability of a very long free-text cell
@@ -512,6 +513,18 @@ class _Gen:
             if rng.random() < p.empty_measures and m > 0:
                 doc.tags.add('empty_measure')
                 continue
+            if rng.random() < p.p_bbox:
+                page = rng.choice([1, 1, 2, 12])
+                cells = []
+                for c in range(len(self.paths)):
+                    if rng.random() < 0.8:
+                        cells.append(Cell('tandem', f'*xywh-{page}:{rng.randint(0, 400)},{rng.randint(0, 900)},{rng.randint(1, 600)},{rng.randint(1, 200)}'))
+                    else:
+                        cells.append(Cell('nullinterp', '*'))
+                if all(c.kind == 'nullinterp' for c in cells):
+                    cells[0] = Cell('tandem', f'*xywh-{page}:1,2,3,4')
+                self.add(Line('interp', cells))
+                doc.tags.add('bounding_boxes')
             n_rows = rng.randint(*p.rows)
             if p.long_rows:
                 n_rows = max(1, p.long_rows // max(1, n_meas))
